@@ -3,9 +3,13 @@ package checks
 import (
 	"bytes"
 	"fmt"
+	"sort"
+	"strconv"
 	"strings"
 
 	"github.com/alttpo/snes/asm"
+
+	"verif/internal/ref65816"
 )
 
 // ---- reference model of an Emitter: a list of items with PC arithmetic, a label table,
@@ -331,6 +335,28 @@ func asmDynamicOp(name string) (asmOp, bool) {
 		return asmOp{name: name, kind: itComment, real: func(e *asm.Emitter) { e.AssumeREP(asm.Flags(v)) }, model: func(m *asmModel) bool { m.p &^= byte(v); return false }}, true
 	case name == "EmitBytes(300)":
 		return asmOp{name: name, kind: itData, real: func(e *asm.Emitter) { emitBytesAndScribble(e, dataBlock(300)) }, model: func(m *asmModel) bool { return !m.emit(itData, dataBlock(300), -1) }}, true
+	case strings.HasPrefix(name, "Comment(\"") && strings.HasSuffix(name, "\")"):
+		c, err := strconv.Unquote(name[len("Comment(") : len(name)-1])
+		if err != nil {
+			return asmOp{}, false
+		}
+		return asmOp{name: name, real: func(e *asm.Emitter) { e.Comment(c) }, model: func(m *asmModel) bool { m.comment(c); return false }, kind: itComment, text: c}, true
+	case strings.HasPrefix(name, "Label(\"") && strings.HasSuffix(name, "\")"):
+		l, err := strconv.Unquote(name[len("Label(") : len(name)-1])
+		if err != nil {
+			return asmOp{}, false
+		}
+		return asmOp{name: name, real: func(e *asm.Emitter) { e.Label(l) }, model: func(m *asmModel) bool { return !m.label(l) }, kind: itLabel, text: l}, true
+	case strings.HasPrefix(name, "M:"):
+		var meth string
+		var arg uint32
+		if i := strings.Index(name, "("); i > 2 {
+			meth = name[2:i]
+			if _, err := fmt.Sscanf(name[i:], "(%x)", &arg); err == nil {
+				return asmMethodOp(meth, arg)
+			}
+		}
+		return asmOp{}, false
 	case scan(name, "SetBase($%06x)", &v):
 		return asmOp{name: name, kind: itComment, real: func(e *asm.Emitter) { e.SetBase(v) }, model: func(m *asmModel) bool { m.setBase(v); return false }}, true
 	}
@@ -620,4 +646,91 @@ func historyNames(al []asmOp, idx []int) []string {
 		out[i] = al[k].name
 	}
 	return out
+}
+
+
+// asmMethodOp: any instruction method of the emitter that takes no label, found by reflection and
+// described by the C03 classification (opcode from the ISA table, operand bytes in call order, width guard),
+// as a symbol for the history checks -- the fixed alphabet holds only a dozen of the ninety methods.
+func asmMethodOp(meth string, arg uint32) (asmOp, bool) {
+	sp, ok := c03Classify()[meth]
+	if !ok || sp.label {
+		return asmOp{}, false
+	}
+	op, ok := opcodeFor(sp.mn, sp.mode)
+	if !ok {
+		return asmOp{}, false
+	}
+	name := fmt.Sprintf("M:%s(%x)", meth, arg)
+	return asmOp{name: name, kind: itInstr,
+		real: func(e *asm.Emitter) {
+			b, err := c03Bind(e, meth)
+			if err != nil {
+				panic(err)
+			}
+			if _, pn, _ := c03Call(b, meth, arg); pn != nil {
+				panic(pn)
+			}
+		},
+		model: func(m *asmModel) bool {
+			if !guardOK(sp.guard, m.p) {
+				return true
+			}
+			n := ref65816.Length(op, m.p&0x20 != 0, m.p&0x10 != 0)
+			bs := []byte{op}
+			for i := 1; i < n; i++ {
+				bs = append(bs, byte(arg>>(8*(i-1))))
+			}
+			if !m.fits(n) {
+				return true
+			}
+			switch meth {
+			case "SEP":
+				m.p |= byte(arg)
+			case "REP":
+				m.p &^= byte(arg)
+			}
+			m.emit(itInstr, bs, -1)
+			return false
+		}}, true
+}
+
+// asmTextOps: comments and labels whose text is not plain ASCII words: UTF-8 beyond one byte per character,
+// format verbs, a tab, bytes that are not UTF-8 at all. A listing shows them as they were given.
+func asmTextOps() (out []asmOp) {
+	for _, c := range []string{"copy A \u2192 X, wait \u2248 5 \u00b5s", "100% done: %d %s %02x %!", "tab\there", "raw \xff\xfe bytes", "\u30e9\u30d9\u30eb"} {
+		op, _ := asmDynamicOp(fmt.Sprintf("Comment(%q)", c))
+		out = append(out, op)
+	}
+	for _, l := range []string{"d\u00e9but", "\u30e9\u30d9\u30eb", "pct%d"} {
+		op, _ := asmDynamicOp(fmt.Sprintf("Label(%q)", l))
+		out = append(out, op)
+	}
+	return
+}
+
+// asmMethodOps: every such method with two operand patterns (all operand bytes $F8: negative as a signed
+// displacement; $03,$02,$01).
+func asmMethodOps() (out []asmOp) {
+	e := asm.NewEmitter(nil, false)
+	var names []string
+	for n, sp := range c03Classify() {
+		if !sp.label {
+			if _, err := c03Bind(e, n); err == nil {
+				names = append(names, n)
+			}
+		}
+	}
+	sort.Strings(names)
+	for _, n := range names {
+		for _, arg := range []uint32{0xF8F8F8, 0x010203} {
+			if cnt, _ := c03ArgCount(e, n); cnt == 1 && arg != 0xF8F8F8 {
+				continue
+			}
+			if op, ok := asmMethodOp(n, arg); ok {
+				out = append(out, op)
+			}
+		}
+	}
+	return
 }
